@@ -8,6 +8,7 @@ import "github.com/cloudwego/frugal/internal/vrt"
 
 // refDec carries the outcome flags of one reference decode.
 type refDec struct {
+	OkOpen    bool   // whether the message counts as well-formed is left open (empty container announcing a non-Thrift element type code)
 	ValueOpen bool   // the properties leave the decoded value open (BOOL byte not 0/1, duplicate field id, duplicate map key)
 	Missing   string // name of the first (lowest id) required field found missing, at the innermost failing struct
 	Reason    string // why the message is not well-formed (diagnostics only)
@@ -38,7 +39,15 @@ func fixedWireSize(wt byte) int {
 }
 
 // refSkip: length of one value of wire type wt at the start of b, or ok=false.
-func refSkip(b []byte, wt byte, depth int) (int, bool) {
+func validWire(wt byte) bool {
+	switch wt {
+	case 2, 3, 4, 6, 8, 10, 11, 12, 13, 14, 15:
+		return true
+	}
+	return false
+}
+
+func refSkip(d *refDec, b []byte, wt byte, depth int) (int, bool) {
 	if depth <= 0 {
 		return 0, false
 	}
@@ -73,7 +82,7 @@ func refSkip(b []byte, wt byte, depth int) (int, bool) {
 				return 0, false
 			}
 			i += 2
-			n, ok := refSkip(b[i:], ft, depth-1)
+			n, ok := refSkip(d, b[i:], ft, depth-1)
 			if !ok {
 				return 0, false
 			}
@@ -88,14 +97,17 @@ func refSkip(b []byte, wt byte, depth int) (int, bool) {
 		if c < 0 {
 			return 0, false
 		}
+		if c == 0 && !(validWire(kt) && validWire(vt)) {
+			d.OkOpen = true // an empty map announcing a non-Thrift key/value type code: left open
+		}
 		i := 6
 		for j := 0; j < c; j++ {
-			n, ok := refSkip(b[i:], kt, depth-1)
+			n, ok := refSkip(d, b[i:], kt, depth-1)
 			if !ok {
 				return 0, false
 			}
 			i += n
-			n, ok = refSkip(b[i:], vt, depth-1)
+			n, ok = refSkip(d, b[i:], vt, depth-1)
 			if !ok {
 				return 0, false
 			}
@@ -111,9 +123,12 @@ func refSkip(b []byte, wt byte, depth int) (int, bool) {
 		if c < 0 {
 			return 0, false
 		}
+		if c == 0 && !validWire(et) {
+			d.OkOpen = true // an empty list/set announcing a non-Thrift element type code: left open
+		}
 		i := 5
 		for j := 0; j < c; j++ {
-			n, ok := refSkip(b[i:], et, depth-1)
+			n, ok := refSkip(d, b[i:], et, depth-1)
 			if !ok {
 				return 0, false
 			}
@@ -163,7 +178,7 @@ func refDecodeStruct(st *RStruct, b []byte, dst *RVal, d *refDec, depth int) (in
 		i += 2
 		fi := fieldIndex(st, id)
 		if fi < 0 || wireType(st.Fields[fi].T) != wt {
-			n, ok := refSkip(b[i:], wt, skipDepthLimit)
+			n, ok := refSkip(d, b[i:], wt, skipDepthLimit)
 			if !ok {
 				d.Reason = "malformed unknown field"
 				return 0, nil, false
